@@ -82,6 +82,19 @@ def run(ch, build):
         scns.append({"bmc": conn.default_bmc(seed=300 + k, suites=[[100, su[0], su[1], su[2]]]), "timeout_ms": 40, "backoff_ms": 50, "steps": steps})
     outs = conn.run_scenarios(scns)
     hist.replay(ch, scns, outs, (Hook(),), "c09")
+    # the same numbering through the library's own UDP transport (sockets, deadlines): replies that arrive late but inside
+    # the attempt's window, lost replies, temporary codes - one number per datagram the BMC receives, none twice
+    scns = []
+    for k in range(3 if ch.quick() else 9):
+        su = hist.SUITES[k % 9]
+        pool = [c for c in hist.command_pool(ch.rng, True)]
+        steps = [{"op": "open", "user": "admin", "password": b"secret".hex(), "priv": 4, "lookup": True, "suites": [list(su)]}]
+        for j in range(8):
+            steps.append({"op": "cmd", "conn": "session", "cmd": ch.rng.choice(pool),
+                          "script": ch.rng.choice([["slow:45"], ["slow:30"], ["busy", "slow:40"], ["slow:35", "busy", "ok"], ["ok"], ["c3", "ok"]])})
+        scns.append({"bmc": conn.default_bmc(seed=330 + k, suites=[[100, su[0], su[1], su[2]]]), "timeout_ms": 60, "udp": True, "steps": steps})
+    outs = conn.run_scenarios(scns)
+    hist.replay(ch, scns, outs, (Hook(),), "c09")
     # session-less histories
     scripts = [s for s in hist.all_scripts(hist.ALPHA_SL, depth) if hist.useful(s, False)]
     # replies whose wrapper carries a non-null session ID / sequence number (the library does not reject them):
